@@ -38,7 +38,9 @@ JudgeCall(r) ==
             \* (a context may write the same call site twice: every occurrence must be normalised)
             ELSE IF \E cl \in calls : cl.p # <<>> THEN Verdict(r.id, "REJECT", "KeywordLeft", nontriv, "")
                  ELSE IF \E cl \in calls : CallArgs(cl) # want THEN Verdict(r.id, "REJECT", "Arguments", nontriv, "")
-                 ELSE IF ~OperatorsUntouched(r.out) THEN Verdict(r.id, "REJECT", "OperatorArgsChanged", nontriv, "")
+                 \* (when the case's own method is NAMED like an operator, its arguments are the normalised ones judged above)
+                 ELSE IF r.mname \notin {"First", "Count", "Select", "Where", "SelectMany"} /\ ~OperatorsUntouched(r.out)
+                      THEN Verdict(r.id, "REJECT", "OperatorArgsChanged", nontriv, "")
                  ELSE Verdict(r.id, "ACCEPT", "", nontriv, "")
 
 (* C08 record: [id, kind = "types", ops: Seq([op, lam]), obs: Seq([res, ty])] -- one entry per stage; *)
